@@ -1,0 +1,9 @@
+// +build verif
+
+package space
+
+// Hooks for the verification harness (/verif): the three implementations individually.
+
+func VerifNativeImpl() SpaceImpl { return nativeSpaceImpl{} }
+func VerifAvxImpl() SpaceImpl    { return avxSpaceImpl{} }
+func VerifSseImpl() SpaceImpl    { return sseSpaceImpl{} }
